@@ -74,6 +74,13 @@ Fixpoint take_id (id : Z) (l : list request) : option request * list request :=
 Definition upd (s : mstate) (p : list request) (st : store) : mstate :=
   {| ms_gen := ms_gen s; ms_pending := p; ms_store := st; ms_next_id := ms_next_id s |}.
 
+Definition other_type (cmd : Z) (o : option request) : bool :=
+  match o with
+  | Some q => negb (cmd =? SmppCommand_GENERIC_NACK)
+              && negb (match lookup (rq_cmd q) command_response_map with Some c => c =? cmd | None => false end)
+  | None => false
+  end.
+
 Definition step (s : mstate) (e : event) : mstate * list outcome :=
   match e with
   | EAssign cmd =>
@@ -105,6 +112,10 @@ Definition step (s : mstate) (e : event) : mstate * list outcome :=
       match original_command with
       | Err _ => (s, [Crash])
       | Ok oc =>
+        (* correlator.get(): a stored request is taken out only by a response of its own type or by a generic_nack; a response of
+           another type leaves it outstanding (fix: it used to be popped first and checked afterwards) *)
+        if other_type cmd (fst (pop seq (ms_store s))) then (s, [])
+        else
         let '(orig, st') := pop seq (ms_store s) in
         let s' := upd s (ms_pending s) st' in
         match orig with
